@@ -319,7 +319,7 @@ func matchParen(s string, i int) int {
 }
 
 var topKeywords = map[string]bool{"func": true, "closure": true, "spec": true, "lemma": true, "interface": true,
-	"field": true, "chan": true, "ghost": true, "axiom": true, "global": true, "ghostfield": true, "unscoped": true, "chanlog": true}
+	"field": true, "chan": true, "ghost": true, "axiom": true, "global": true, "ghostfield": true, "unscoped": true, "chanlog": true, "callguard": true}
 
 var clauseKeywords = map[string]bool{"requires": true, "ensures": true, "modifies": true, "safety": true, "pure": true,
 	"inline": true, "may_panic": true, "witness": true, "lemma": true, "role": true, "holds": true, "acquires": true,
@@ -817,6 +817,14 @@ func (cs *Contracts) parseBlock(b []cline, path, pkgPath string) {
 	case "ghostfield":
 		f := strings.Fields(rest)
 		cs.GhostFields[f[0]] = f[1]
+	case "callguard":
+		tags, _, body := parseTagged(rest)
+		k := strings.Index(body, ":")
+		path3 := strings.Split(strings.TrimSpace(body[:k]), ".")
+		if len(path3) != 3 {
+			fatalf("%s:%d: callguard expects Type.field.Method: lock", path, head.line)
+		}
+		cs.Fields = append(cs.Fields, &FieldDecl{PkgPath: pkgPath, Type: path3[0], Field: path3[1], Mode: "callguard:" + path3[2], Args: []string{strings.TrimSpace(body[k+1:])}, Tags: tags, File: path, Line: head.line})
 	case "chanlog":
 		f := strings.Fields(rest)
 		dot := strings.LastIndex(f[0], ".")
